@@ -46,6 +46,8 @@ class SymBase:
         """Evaluate one assertion of the property; `cond` may be symbolic (forks)."""
         self.reached += 1
         if not cond:
+            if callable(detail):        # lazy detail: formatting symbolic values concretises them, do it only on failure
+                detail = detail()
             if signature in self.soft_signatures:
                 # a recorded known finding: remember it, keep exploring this path for *other* violations
                 if not any(v.signature == signature for v in self.soft):
